@@ -313,6 +313,20 @@ def check_quit(program, rep):
                             'ExceptionGroup("..", [Quit()]) makes start() '
                             'return normally instead of propagating an '
                             'exception that is not Quit', line=ce.lineno)
+    for c, f_ in [(c, f_) for c in [lp] + program.subclasses(lp)
+                  for f_ in c.methods.values()]:
+        for n_ in ast.walk(f_.node):
+            if isinstance(n_, ast.Call) and dotted(n_.func) == 'iter' \
+                    and len(n_.args) == 2 and 'time_function' in norm(
+                        n_.args[0]):
+                rep.bad('C14.quit', f_.where, n_,
+                        f'the clock is read through {norm(n_)}: the iterator '
+                        'protocol takes a StopIteration raised by the time '
+                        'function (a scripted clock running out) for the end '
+                        'of the loop - loop() returns, start() returns '
+                        'normally with running still true - instead of '
+                        'letting the exception reach the caller; a reading '
+                        'equal to the sentinel ends it too', line=n_.lineno)
     f = lp.methods['start']
     # a context manager of the package around the loop (its __enter__ /
     # __exit__ set `running` and absorb Quit): not modelled - no verdict
